@@ -24,6 +24,10 @@ def main():
         if pid in overrides:
             na.append({'property_id': pid, 'reason': overrides[pid]})
             continue
+        ready = open(os.path.join(VERIF, 'tools', 'ready.txt')).read().split()
+        if pid not in ready:
+            na.append({'property_id': pid, 'reason': PENDING_REASON})
+            continue
         if not os.path.exists(os.path.join(VERIF, 'checks', pid.lower() + '.py')):
             na.append({'property_id': pid, 'reason': PENDING_REASON})
             continue
